@@ -532,6 +532,35 @@ def rule_limit(ctx, m):
            "%s:%d" % (good[0][0].file, good[0][7]) if good else (m.f.byid(sorted(m.validators[GUID])[0]).where))
 
 
+def rule_complete(ctx, m):
+    """COMPLETE (added after seeded change C10): a validator that applies a parser-combinator grammar must apply it to
+    the *whole* input: through winnow's `Parser::parse` (fails on trailing bytes), or — when it drives the parser
+    with `parse_next` / `parse_peek` itself — by testing the remaining input for emptiness afterwards. Otherwise
+    every string that merely starts with a valid name is accepted."""
+    n = 0
+    for t in list(NAME_TYPES) + [LEAF[6]]:
+        for vid in sorted(m.validators.get(t, ())):
+            b = m.f.byid(vid)
+            if b is None:
+                continue
+            whole = [c for c in mir.calls(b) if c.declared == "winnow::parser::Parser::parse"]
+            partial = [c for c in mir.calls(b) if c.declared in ("winnow::parser::Parser::parse_next", "winnow::parser::Parser::parse_peek")]
+            if not whole and not partial:
+                continue
+            n += 1
+            ok = True
+            why = "grammar applied with Parser::parse (whole input)"
+            for c in partial:
+                # the remaining input must be tested for emptiness on the success path
+                after = mir.reachable(b, [c.b])
+                tested = any(x.b in after and x.callee.rsplit("::", 1)[-1] in ("is_empty", "eof", "eof_offset", "len") for x in mir.calls(b) if x is not c)
+                if not tested:
+                    ok = False
+                    why = "grammar driven with %s and the rest of the input is never tested: trailing bytes after a valid name are accepted" % c.callee.rsplit("::", 1)[-1]
+            ctx.ob("COMPLETE", "%s:%s:whole-input" % (short(t), short(vid)), ok, why, b.where)
+    ctx.floor("COMPLETE", "validators applying a winnow grammar", n, 4)
+
+
 # ------------------------------------------------------------------------------------------ API
 def rule_api(ctx, m):
     f = m.f
@@ -604,4 +633,5 @@ def run(ctx):
     rule_unchecked(ctx, m)
     rule_deser(ctx, m)
     rule_limit(ctx, m)
+    rule_complete(ctx, m)
     rule_api(ctx, m)
